@@ -39,6 +39,14 @@ CHECKS['C16'] = dict(
     note='Trusted: CrossHair+z3, the specification automaton in props/C16.py, FakeUsb. Commands/args and image sizes are enumerated (formatting with %08x realises symbolic ints); DATA packets carry well-formed hex size fields; error message texts with symbolic device text are not checked (concrete texts are).',
     technique='symbolic execution (CrossHair/z3) vs specification automaton over symbolic device responses',
     design='3/C16')
+CHECKS['C15'] = dict(
+    category='other',
+    text='Bounded symbolic execution (CrossHair/z3) of the real AdbConnection.connect/open_stream/close paths against a message-level scripted device: handshake outcome and every packet sent equal a specification automaton '
+         'for all reply scripts up to the bound (any command, symbolic arguments, silence, symbolic timeout expiry, 0-2 keys); open_stream over replies addressed to this/another/unknown stream from an arbitrary allocator state; '
+         'local/remote/double close; illegal mid-session packets; and an inductive step for stream-id allocation from an arbitrary pre-state (covers wrap-around and histories of any length).',
+    note='Trusted: CrossHair+z3; message-level FakeAdapter (framing is C13), queue/KeyList/ScriptTimeout stubs, the specification automaton in props/C15.py. Outside: >64 consecutive live ids, real RSA, thread interleavings (C14).',
+    technique='symbolic execution (CrossHair/z3) vs specification automaton; inductive step for id allocation',
+    design='3/C15')
 NA_REASON = {}
 DEFAULT_NA = 'check not built yet in this round (work in progress; see DESIGN.md section 6 for the plan)'
 
